@@ -4,7 +4,7 @@ import re
 from . import astq, dtab, common
 
 COMPILER_FUNCS = ("compiler<|generic_compiler::accumulate|fast_perfect_hash<|checked_perfect_hash<|vptr_vector<|vptr_map<|"
-                  "static_list<|class_declaration_aux<|definition_info::~|>::method|>::~method|add_function<|decode_dispatch_data<")
+                  "static_list<|class_declaration_aux<|definition_info::~|>::method|>::~method|add_function<|decode_dispatch_data<|yomm2::detail::operator[=!]=")
 CFG_FUNCS = "calculate_covariant_classes|assign_lattice_slots|build_dispatch_tables|augment_classes|augment_methods|resolve_static_type_ids|hash_initialize|publish_vptrs|hash_type_id|install_gv|static_list<|add_function|class_declaration_aux|definition_info::~|>::~method"
 
 
@@ -27,8 +27,7 @@ def short(f):
 def order_rules(run, r_ms, r_base, ast):
     ms = {f["name"]: f for f in by_name(ast, "is_more_specific")}
     bs = {f["name"]: f for f in by_name(ast, "is_base")}
-    allf = dict(ms)
-    allf.update(bs)
+    allf = {f["name"]: f for f in ast.funcs if f.get("body") and re.search(r"compiler<.*>::\w+$", f["name"])}
     for rule, fs, oracle, what in ((r_ms, ms, dtab.MORE_SPECIFIC, "is_more_specific"), (r_base, bs, dtab.IS_BASE, "is_base")):
         if rule is None:
             continue
@@ -37,6 +36,10 @@ def order_rules(run, r_ms, r_base, ast):
         for f in fs.values():
             try:
                 t = dtab.order_table(f, allf)
+            except dtab.RegistrationDependent as e:
+                run.instance(rule, "%s: class relations are read from the closure (covariant_classes)" % short(f), (f["file"], f["line"]), ok=False)
+                run.violation(rule, "compiler::%s|closure" % what, "%s decides 'is a base of' by searching `%s`, which only holds the bases named in registration records (incremental registration lists direct bases only); the closure is covariant_classes" % (what, e), (f["file"], f["line"]))
+                continue
             except dtab.Unclassifiable as e:
                 run.broken.append("%s: decision table not extractable (%s)" % (short(f), e))
                 continue
@@ -182,6 +185,21 @@ def cells_rules(run, r_cells, r_pair, r_guard, ast):
             run.instance(r_pair, "%s: concrete_* counters are only touched at the leaf (dim == 0), where every dimension's concreteness is known" % short(f), (f["file"], f["line"]), ok=not conc)
             for n in conc:
                 run.violation(r_pair, "compiler::build_dispatch_table|concrete-counter-above-leaf", "`%s` at line %s counts concrete tuples outside the dim == 0 leaf: the concreteness of the inner dimensions is not known there" % (astq.text(n), n["l"]), (f["file"], n["l"]))
+            byid_o, parent_o = astq.index_nodes(f)
+            for n in list(outside):
+                if n in conc or n.get("k") != "CXXMemberCallExpr":
+                    continue
+                # a cell appended outside the classified decision: it may be an error cell; is the report updated with it?
+                comp_o = _enclosing(parent_o, n, ("CompoundStmt",))
+                scope = comp_o[0] if comp_o else f["body"]
+                counted = any(touches(x) and x.get("k") != "CXXMemberCallExpr" for x in astq.walk(scope))
+                val = astq.strip(n["c"][1]) if len(n.get("c") or []) > 1 else None
+                plain_def = False
+                if not counted and not plain_def:
+                    outside.remove(n)
+                    run.instance(r_pair, "%s: every cell appended is counted where its kind is decided" % short(f), (f["file"], n["l"]), ok=False)
+                    run.violation(r_pair, "compiler::build_dispatch_table|uncounted-cell", "`%s` (line %s) appends a cell whose kind is not decided there (it may be the not-implemented or the ambiguity cell) without updating the report: the gap / ambiguity of that tuple is not counted" % (
+                        astq.text(n)[:80], n["l"]), (f["file"], n["l"]))
             for n in outside:
                 if n not in conc:
                     run.broken.append("%s: `%s` (line %s) writes cells / counters outside the best-set decision the counting rules classify" % (short(f), astq.text(n)[:80], n["l"]))
@@ -1098,12 +1116,15 @@ def _list_cases(f, decide_text, cases):
 def list_rules(run, r_link, r_reset, r_pair, r_idem, ast):
     # ---- remove / push_back: abstract interpretation over list-shape cases
     from . import liststate
+    kept = {}       # list type -> {op: {case: counters}}: an element count kept next to the links must follow every operation
     for what, pattern, cases in (("remove", r"static_list<.*>::remove$", liststate.remove_cases()), ("push_back", r"static_list<.*>::push_back$", liststate.push_cases())):
         fs = _fn(ast, pattern)
         if not fs:
             raise common.AnalysisBroken("static_list<T>::%s not instantiated" % what)
         for f in fs:
             for case, ok, info in liststate.analyse(f, cases):
+                if ok is not None:
+                    kept.setdefault(re.sub(r"::\w+$", "", f["name"]), {}).setdefault(what, {})[case.name] = (getattr(case, "counters", {}), f)
                 if ok is None:
                     run.broken.append("%s, case '%s': not classifiable (%s)" % (short(f), case.name, info))
                     continue
@@ -1119,6 +1140,16 @@ def list_rules(run, r_link, r_reset, r_pair, r_idem, ast):
                         run.violation(r_reset, "static_list::remove|reset|%s" % case.name, "after removing the %s: %s" % (case.name, "; ".join(reset)), (f["file"], f["line"]))
                 elif reset:
                     run.violation(r_link, "static_list::push_back|node|%s" % case.name, "appending to a list with %s: %s" % (case.name, "; ".join(reset)), (f["file"], f["line"]))
+    for lst, ops in kept.items():
+        fields = {c for op in ops.values() for cs, _ in op.values() for c in cs}
+        for c in sorted(fields):
+            for what, want in (("push_back", 1), ("remove", -1)):
+                for cname, (cs, f) in sorted(ops.get(what, {}).items()):
+                    okc = cs.get(c) == want
+                    run.instance(r_link, "%s: the element count `%s` follows %s (%s)" % (short(f), c, what, cname), (f["file"], f["line"]), ok=okc)
+                    if not okc:
+                        run.violation(r_link, "static_list::%s|count|%s" % (what, cname), "the list keeps an element count `%s`; %s changes it by %s instead of %+d when %s: size() no longer reports the number of linked items" % (
+                            c, what, cs.get(c, 0), want, ("removing the " if what == "remove" else "appending to a list with ") + cname), (f["file"], f["line"]))
     # ---- clear
     for f in _fn(ast, r"static_list<.*>::clear$"):
         loops = [n for n in astq.walk(f["body"]) if n.get("k") == "WhileStmt"]
@@ -2244,3 +2275,111 @@ def model_rules(run, rule, ast, parts=("dummies", "pf", "iter", "vp", "params"))
             if not ok:
                 run.violation(rule, "compiler::augment_methods|param-index", "the (method, parameter) pair registered in a parameter's class is not (this method, position of the parameter): %s" % (
                     "loops" if not ok_loops else "method pointer" if not m_ok else "the index is not a per-method counter advanced once per parameter"), (f["file"], pb["l"]))
+
+
+
+# ---------------------------------------------------------------------------
+# (16) enumeration of a catalog: begin / end / iterator / size / empty
+
+def _ret_expr(f):
+    rs = [n for n in astq.walk(f["body"]) if n.get("k") == "ReturnStmt" and n.get("c")]
+    return astq.strip(rs[0]["c"][0]) if len(rs) == 1 else None
+
+
+def _ctor_arg(e):
+    """the single argument of a constructor / functional-cast expression building an iterator"""
+    e = astq.strip(e)
+    while e is not None and e.get("k") in ("CXXConstructExpr", "CXXTemporaryObjectExpr") and len(e.get("c") or []) == 1 and e.get("k") != "IntegerLiteral":
+        inner = astq.strip(e["c"][0])
+        if inner is not None and inner.get("k") in ("CXXConstructExpr", "CXXTemporaryObjectExpr"):
+            e = inner
+            continue
+        return inner
+    return e
+
+
+def enum_rules(run, rule, ast):
+    """catalog enumeration: begin() starts at `first`, end() is the null iterator, ++ follows next_ptr, * / -> give the node,
+    == / != compare the node pointers, empty() <=> no first node, size() is the number of steps from begin() to end()."""
+    def is_null(e):
+        return e is not None and (e.get("k") in ("CXXNullPtrLiteralExpr", "GNUNullExpr") or (e.get("k") == "IntegerLiteral" and e.get("v") == 0))
+
+    def is_this_member(e, name):
+        e = astq.strip(e)
+        return e is not None and e.get("k") == "MemberExpr" and e.get("member") == name and (not e.get("c") or astq.strip(e["c"][0]).get("k") == "CXXThisExpr")
+    n_seen = 0
+    for f in _fn(ast, r"static_list<.*>::(begin|end)$"):
+        e = _ret_expr(f)
+        which = f["name"].rsplit("::", 1)[1]
+        a = _ctor_arg(e) if e is not None else None
+        if which == "begin":
+            ok = a is not None and is_this_member(a, "first")
+        else:
+            ok = e is not None and (is_null(a) or (e.get("k") in ("CXXConstructExpr", "CXXTemporaryObjectExpr") and not e.get("c")))
+        n_seen += 1
+        run.instance(rule, "%s: %s" % (short(f), "enumeration starts at the first node" if which == "begin" else "the end of the enumeration is the null iterator"), (f["file"], f["line"]), ok=ok)
+        if not ok:
+            run.violation(rule, "static_list::%s" % which, "%s() returns `%s`" % (which, astq.text(e)[:80] if e else "?"), (f["file"], f["line"]))
+    for f in _fn(ast, r"static_list<.*>::(const_)?iterator::operator\+\+$"):
+        if len(f.get("params") or []) != 0:
+            continue        # postfix form delegates to the prefix form
+        asg = [n for n in astq.walk(f["body"]) if n.get("k") == "BinaryOperator" and n.get("op") == "="]
+        ok = len(asg) == 1 and is_this_member(asg[0]["c"][0], "ptr")
+        if ok:
+            r = astq.strip(asg[0]["c"][1])
+            ok = r.get("k") == "MemberExpr" and r.get("member") == "next_ptr" and r.get("arrow") and is_this_member(r["c"][0], "ptr")
+        n_seen += 1
+        run.instance(rule, "%s: the iterator advances along next_ptr" % short(f), (f["file"], f["line"]), ok=ok)
+        if not ok:
+            run.violation(rule, "static_list::iterator::operator++", "operator++ does not set ptr = ptr->next_ptr (`%s`)" % (astq.text(asg[0])[:80] if asg else "no assignment"), (f["file"], f["line"]))
+    for f in _fn(ast, r"static_list<.*>::(const_)?iterator::operator(\*|->)$"):
+        e = _ret_expr(f)
+        star = f["name"].endswith("operator*")
+        ok = e is not None and ((star and e.get("k") == "UnaryOperator" and e.get("op") == "*" and is_this_member(e["c"][0], "ptr")) or (not star and is_this_member(e, "ptr")))
+        n_seen += 1
+        run.instance(rule, "%s: dereferencing gives the current node" % short(f), (f["file"], f["line"]), ok=ok)
+        if not ok:
+            run.violation(rule, "static_list::iterator::deref", "%s returns `%s`" % (f["name"].rsplit("::", 1)[1], astq.text(e)[:60] if e else "?"), (f["file"], f["line"]))
+    for f in [f for f in ast.funcs if f.get("body") and re.search(r"yomm2::detail::operator[=!]=$", f["name"]) and len(f.get("params") or []) == 2 and "static_list" in f["params"][0]["type"]]:
+        e = _ret_expr(f)
+        op = f["name"][-2:]
+        ok = False
+        if e is not None and e.get("k") == "BinaryOperator" and e.get("op") == op:
+            l, r = astq.strip(e["c"][0]), astq.strip(e["c"][1])
+            ps = [p["did"] for p in f["params"]]
+            ok = all(x.get("k") == "MemberExpr" and x.get("member") == "ptr" for x in (l, r)) and {d for x in (l, r) for d in [y["ref"]["did"] for y in astq.walk(x) if y.get("k") == "DeclRefExpr"]} == set(ps)
+        n_seen += 1
+        run.instance(rule, "%s: iterators compare by node" % short(f)[:120], (f["file"], f["line"]), ok=ok)
+        if not ok:
+            run.violation(rule, "static_list::iterator::operator%s" % op, "operator%s on catalog iterators is `%s`, not a comparison of the two node pointers" % (op, astq.text(e)[:80] if e else "?"), (f["file"], f["line"]))
+    for f in _fn(ast, r"static_list<.*>::empty$"):
+        e = _ret_expr(f)
+        ok = False
+        if e is not None:
+            if e.get("k") == "UnaryOperator" and e.get("op") == "!" and is_this_member(e["c"][0], "first"):
+                ok = True
+            elif e.get("k") == "BinaryOperator" and e.get("op") == "==" and ((is_this_member(e["c"][0], "first") and is_null(astq.strip(e["c"][1]))) or (is_this_member(e["c"][1], "first") and is_null(astq.strip(e["c"][0])))):
+                ok = True
+            elif e.get("k") in ("CXXOperatorCallExpr", "CallExpr") and e.get("oop", "") == "==" and {(x.get("callee") or "").rsplit("::", 1)[-1] for x in astq.walk(e) if x.get("k") == "CXXMemberCallExpr"} == {"begin", "end"}:
+                ok = True
+        n_seen += 1
+        run.instance(rule, "%s: empty() <=> there is no first node" % short(f), (f["file"], f["line"]), ok=ok)
+        if not ok:
+            run.violation(rule, "static_list::empty", "empty() returns `%s`" % (astq.text(e)[:80] if e else "?"), (f["file"], f["line"]))
+    for f in _fn(ast, r"static_list<.*>::size$"):
+        e = _ret_expr(f)
+        ok = None
+        if e is not None and e.get("k") == "CallExpr" and (e.get("callee") or "").startswith("std::distance<"):
+            names = [(x.get("callee") or "").rsplit("::", 1)[-1] for x in e["c"][1:3] for x in [astq.strip(_ctor_arg(x) if astq.strip(x).get("k") in ("CXXConstructExpr",) else x)]]
+            ok = names == ["begin", "end"]
+        elif e is not None and e.get("k") == "MemberExpr" and (not e.get("c") or astq.strip(e["c"][0]).get("k") == "CXXThisExpr"):
+            ok = True       # a maintained element count: judged by the count rules of push_back / remove
+        n_seen += 1
+        if ok is None:
+            run.broken.append("%s: size() is neither the distance from begin() to end() nor a maintained count" % short(f))
+            continue
+        run.instance(rule, "%s: size() is the number of steps from begin() to end() (or a count the list operations maintain)" % short(f), (f["file"], f["line"]), ok=ok)
+        if not ok:
+            run.violation(rule, "static_list::size", "size() returns `%s`" % astq.text(e)[:80], (f["file"], f["line"]))
+    if n_seen < 8:
+        run.broken.append("catalog enumeration functions: only %d recognised" % n_seen)
